@@ -172,3 +172,45 @@ pub fn run_vrl(src: &str, event: Value) -> Result<Value, String> {
     let mut target = TargetValue { value: event, metadata: Value::Object(BTreeMap::new()), secrets: Secrets::default() };
     Runtime::default().resolve(&mut target, &program, &TimeZone::default()).map_err(|e| e.to_string())
 }
+
+/// Variant used by the C25/C29 slices: errors are tagged (`compile: E…`, `error: …`, `abort: …`,
+/// `panic: …`), panics are caught, the configured timezone can be chosen.
+pub mod tagged {
+    use super::*;
+    use crate::sink::guarded;
+    use std::cell::RefCell;
+    use std::collections::HashMap;
+
+    thread_local! {
+        static PROGRAMS: RefCell<HashMap<String, Result<Program, String>>> = RefCell::new(HashMap::new());
+    }
+
+    pub fn run_vrl(src: &str, event: Value) -> Result<Value, String> {
+        run_vrl_tz(src, event, &TimeZone::default())
+    }
+
+    pub fn run_vrl_tz(src: &str, event: Value, tz: &TimeZone) -> Result<Value, String> {
+        let r = guarded(|| {
+            let program = PROGRAMS.with(|c| {
+                let mut c = c.borrow_mut();
+                if !c.contains_key(src) {
+                    let compiled = vrl::compiler::compile(src, &vrl::stdlib::all()).map(|r| r.program).map_err(|d| {
+                        let codes: Vec<String> = d.iter().map(|x| format!("E{}", x.code)).collect();
+                        format!("compile: {}", codes.join(","))
+                    });
+                    c.insert(src.to_string(), compiled);
+                }
+                c.get(src).unwrap().clone()
+            })?;
+            let mut target = TargetValue { value: event, metadata: Value::Object(Default::default()), secrets: Secrets::default() };
+            Runtime::default().resolve(&mut target, &program, tz).map_err(|t| match t {
+                Terminate::Abort(e) => format!("abort: {e}"),
+                Terminate::Error(e) => format!("error: {e}"),
+            })
+        });
+        match r {
+            Ok(x) => x,
+            Err(p) => Err(format!("panic: {p}")),
+        }
+    }
+}
